@@ -228,6 +228,26 @@ def replay_conserve(chk, rs, c, variants):
                 return
             if not _cmp(chk, rs, c, "halo_is_padding", "conc", conc, conce[sl], prec, "halo=%s vs explicit zero padding by (%d,%d) cells" % (kw["halo"], py, px), **extra):
                 return
+            # the same with cell sizes that are NOT exactly representable (all horizontal lengths times 5/3, 7/3): the pad
+            # width is still the integer part of halo / cell size.  Used only where that quotient, evaluated in floating
+            # point as the property states it, is the model's integer (halo = k * dx may round to k - 1e-16 on some grids).
+            if kw["halo"] is not None:
+                for sfac in (5.0 / 3.0, 7.0 / 3.0):
+                    dom_s = (kw["domain"][0] * sfac, kw["domain"][1] * sfac)
+                    halo_s = kw["halo"] * sfac
+                    if int(halo_s / (dom_s[0] / c["nx"])) != px or int(halo_s / (dom_s[1] / c["ny"])) != py:
+                        continue
+                    kws = dict(kw, domain=dom_s, halo=halo_s, meas_pt=(kw["meas_pt"][0] * sfac, kw["meas_pt"][1] * sfac))
+                    kwes = dict(kwe, domain=(kwe["domain"][0] * sfac, kwe["domain"][1] * sfac), meas_pt=(kwe["meas_pt"][0] * sfac, kwe["meas_pt"][1] * sfac))
+                    _, conc_s, flx_s = rs.solve3(q, kws, srf_bg_conc=bg)
+                    _, conce_s, flxe_s = rs.solve3(qe, kwes, srf_bg_conc=bg)
+                    what = "cell size %.17g x %.17g (not exactly representable), halo=%.17g vs explicit zero padding by (%d,%d) cells" % (dom_s[0] / c["nx"], dom_s[1] / c["ny"], halo_s, py, px)
+                    if np.shape(flx_s) != np.shape(flxe_s[sl]):
+                        _viol(chk, rs, c, "halo_is_padding", what + ": shapes %s vs %s" % (np.shape(flx_s), np.shape(flxe_s[sl])), **extra)
+                        return
+                    if not (_cmp(chk, rs, c, "halo_is_padding", "flux", flx_s, flxe_s[sl], prec, what, **extra)
+                            and _cmp(chk, rs, c, "halo_is_padding", "conc", conc_s, conce_s[sl], prec, what, **extra)):
+                        return
 
 
 # -------------------------------------------------------------------- C04 linearity
